@@ -29,8 +29,8 @@ func init() {
 			"oracle: conservation over the issue log, nested => error, foreign recipient => error, option on => accept only inside the window with a parsable certificate, option off => same as plaintext twin; distinct = shape hash of those knobs and the outcome",
 		Directed:    c07Directed,
 		Run:         c07Run,
-		MustHit:     []string{"mode=genuine", "mode=attacker-encrypt", "mode=nested-unsigned-response", "mode=nested-signed-by-nonconforming-idp", "embed=foreign", "embed=sp", "clock=nb-1ns", "clock=nb", "clock=na", "clock=na+1ns", "validate_on", "validate_off", "keyfault=empty-cert", "keyfault=garbage-cert", "keyfault=keystore-error", "key=setter", "key=field", "key=tls"},
-		RandomRuns:  map[string]int{"quick": 1200, "thorough": 60000},
+		MustHit:     []string{"mode=genuine", "mode=attacker-encrypt", "mode=nested-unsigned-response", "mode=nested-signed-by-nonconforming-idp", "embed=foreign", "embed=sp", "clock=nb-1ns", "clock=nb", "clock=na", "clock=na+1ns", "validate_on", "validate_off", "keyfault=empty-cert", "keyfault=garbage-cert", "keyfault=keystore-error", "key=setter", "key=field", "key=tls", "tls_leaf_differs"},
+		RandomRuns:  map[string]int{"quick": 6000, "thorough": 60000},
 		Assumptions: []string{"encrypted layouts run with signature checking on (with checking off the library never decrypts)"},
 	})
 }
@@ -98,6 +98,12 @@ func c07Run(r *core.Run) {
 	if keyFault != "none" {
 		r.Fault("keystore_" + keyFault)
 		r.Probe("keyfault=" + keyFault)
+	}
+	if ks == world.KeyTLS && t.Bool("c07.leaf") {
+		// the parsed-certificate cache of the TLS key store holds a long-lived certificate of the
+		// same key; what counts is the configured certificate itself
+		s.Cfg.EncLeaf = world.MintCert(spKey, s.Epoch.Add(-1000*time.Hour), s.Epoch.Add(100000*time.Hour), 5)
+		r.Probe("tls_leaf_differs")
 	}
 	if !s.Build() {
 		return
